@@ -20,6 +20,8 @@ mod c05;
 #[cfg(kani)]
 mod c06;
 #[cfg(kani)]
+mod c11f;
+#[cfg(kani)]
 mod c12;
 #[cfg(kani)]
 mod c07;
